@@ -213,6 +213,17 @@ theorem via_add_congr (h2 : (2 : K) ≠ 0) {X X' Y Y' : A × A × A} (gX : GoodT
   · rw [good_eq h gX gX']; exact eX
   · rw [good_eq h gY gY']; exact eY
 
+/-- the library's projective equality `eq` is reflexive, symmetric and transitive on good triples
+    (on the curve or not; with repair F4 of `eq`, any two `z = 0` triples are equal) -/
+theorem via_eq_equiv {X Y Z : A × A × A} (gX : GoodT Good X) (gY : GoodT Good Y)
+    (gZ : GoodT Good Z) :
+    OptBn.eq X X = true ∧ (OptBn.eq X Y = true → OptBn.eq Y X = true)
+      ∧ (OptBn.eq X Y = true → OptBn.eq Y Z = true → OptBn.eq X Z = true) := by
+  rw [← good_eq h gX gX, ← good_eq h gX gY, ← good_eq h gY gX, ← good_eq h gY gZ,
+    ← good_eq h gX gZ]
+  simp only [C13.Bn.opt_eq_iff]
+  exact ⟨trivial, Eq.symm, Eq.trans⟩
+
 /-- `multiply` respects `eq` in its point argument (good triples) -/
 theorem via_multiply_congr (h2 : (2 : K) ≠ 0) {X X' : A × A × A} (gX : GoodT Good X)
     (gX' : GoodT Good X') (eX : OptBn.eq X X' = true) (n : ℕ) :
